@@ -32,6 +32,11 @@ def change_lists(b, spec):
         st = next(iter(spec["steps"])); j1 = list(spec["jobs"])[1]
         C["step.jobs+=job1 & job.ram"] = (lambda b: [[b[st].jobs, list(b[st].jobs) + [b[j1]]], [b[j1].ram_needed, Q((120, "MB"))]],
                                           lambda s: (s["steps"][st]["jobs"].append(j1), s["jobs"][j1].__setitem__("ram_needed", (120, "MB"))))
+    uj0 = spec["ups"][up0]["journey"]
+    if len(spec["journeys"][uj0]["steps"]) > 1:
+        # a list change that recomputes the usage pattern itself (same steps, other order)
+        C["journey.uj_steps reversed"] = (lambda b: [[b[uj0].uj_steps, list(reversed(list(b[uj0].uj_steps)))]],
+                                          lambda s: s["journeys"][uj0].__setitem__("steps", list(reversed(s["journeys"][uj0]["steps"]))))
     return C
 
 
@@ -55,7 +60,7 @@ def dates_for(b):
     if common:
         import pandas as pd
         for k, t in enumerate(pd.date_range(max(starts), min(ends), freq="h")): hourly[f"hour{k}"] = t.to_pydatetime()
-    d = {**hourly, "first": lo.to_pydatetime(), "interior": inner.to_pydatetime() if common else None,
+    d = {**hourly, "first": lo.to_pydatetime(), "first-of-last-pattern": max(starts).to_pydatetime() if len(starts) > 1 and max(starts) > lo else None, "interior": inner.to_pydatetime() if common else None,
          "last-common": min(ends).to_pydatetime() if common else None,
          "before": (lo - timedelta(days=3)).to_pydatetime(), "after": (hi + timedelta(days=400)).to_pydatetime(),
          "naive": lo.to_pydatetime().replace(tzinfo=None)}
@@ -149,18 +154,19 @@ def failing_changes(b, spec):
 
 def run_c05(tier, seed, procs=16):
     T = H.topologies()
-    tnames = ["single", "two_independent_chains", "server_shared_by_two_journeys", "two_journeys_sharing_job", "dst_fall_back", "dst_spring_forward"] if tier == "quick" else list(T)
+    tnames = ["single", "two_independent_chains", "server_shared_by_two_journeys", "two_journeys_sharing_job", "dst_fall_back", "dst_spring_forward",
+              "disjoint_periods_fixed_offset_zones", "dst_starts_at_repeated_hour"] if tier == "quick" else list(T)
     items = []
     for tname in tnames:
         spec = T[tname]
         b = None
         names = list(change_lists(None, spec).keys())
         for cname in names:
-            dnames = ("first", "interior", "last-common", "before", "after", "naive", "before-1h", "after-1h", "before-5h", "after-5h", "first@kathmandu", "interior@paris")
+            dnames = ("first", "interior", "last-common", "first-of-last-pattern", "before", "after", "naive", "before-1h", "after-1h", "before-5h", "after-5h", "first@kathmandu", "interior@paris")
             if tier == "thorough": dnames += ("before-2h", "after-2h", "before-7h", "after-7h", "first@paris", "first@losangeles", "interior@kathmandu", "interior@losangeles")
             if tname.startswith("dst_"): dnames += tuple(f"hour{k}" for k in range(1, 9))
             for dname in dnames:
-                togs = ("", "SR", "SRSR", "SOR") if dname in ("first", "interior") else ("",)
+                togs = ("", "SR", "SRSR", "SOR") if dname in ("first", "interior", "first-of-last-pattern") else ("",)
                 if tier == "thorough" and dname == "interior": togs += ("SSRR", "RSRS")
                 for tg in togs: items.append((tname, spec, cname, dname, tg))
         for cname in failing_changes(None, spec):
@@ -200,9 +206,10 @@ def _c06_case(args):
         if dname in ("before", "after", "naive") or dname.startswith(("before-", "after-")):
             try:
                 ModelingUpdate(mk(b), date); out["status"] = "bad-date-accepted"
-            except ValueError: pass
             except Exception as ex:
-                out["status"] = "bad-date-other-exception"; out["diff"] = [f"{type(ex).__name__}: {str(ex)[:80]}"]
+                # refused: the statement asks for a rejection, not for a particular exception class (a pure list change has no
+                # hourly ancestor outside its chain, and the period test then fails with a TypeError on None bounds: still a refusal)
+                out["rejected_with"] = type(ex).__name__
             return out
         try:
             sim = ModelingUpdate(mk(b), date)
@@ -214,7 +221,10 @@ def _c06_case(args):
             if old.simulation_twin is not new or new.baseline_twin is not old:
                 out["status"] = "twins-not-paired"; out["diff"] = [str(getattr(old, "label", "?"))[:60]]; return out
         import pandas as pd
-        for new in sim.recomputed_values:
+        # "no simulated hour before the date" is stated for dates at which every usage pattern is still active
+        all_active = all(up.utc_hourly_usage_journey_starts.value.index.min() <= pd.Timestamp(date) <= up.utc_hourly_usage_journey_starts.value.index.max()
+                         for up in b.system.usage_patterns)
+        for new in (sim.recomputed_values if all_active else []):
             vals = list(new.values()) if isinstance(new, dict) else [new]
             for v in vals:
                 if isinstance(v, H.ExplainableHourlyQuantities):
@@ -223,6 +233,17 @@ def _c06_case(args):
                     if imin.tzinfo is None: continue
                     if imin < pd.Timestamp(date):
                         out["status"] = "simulated-hour-before-date"; out["diff"] = [f"{v.label}: {imin} < {date}"]; return out
+        # the pairing survives switching the simulated values on and off again
+        def pairing(tag):
+            for old, new in zip(sim.values_to_recompute, sim.recomputed_values):
+                if getattr(old, "simulation_twin", None) is not new or getattr(new, "baseline_twin", None) is not old:
+                    out["status"] = f"twins-not-paired-{tag}"; out["diff"] = [str(getattr(old, "label", "?"))[:60]]; return False
+            return True
+        if dname.split("@")[0] in ("interior", "last-common"):
+            sim.set_updated_values()
+            ok = pairing("while-switched-on")
+            sim.reset_values()
+            if not ok or not pairing("after-reset"): return out
         if dname.split("@")[0] == "first":
             sim.set_updated_values()
             live = H.snapshot(b.system)
@@ -238,12 +259,13 @@ def _c06_case(args):
 
 def run_c06(tier, seed, procs=16):
     T = H.topologies()
-    tnames = ["single", "two_independent_chains", "server_shared_by_two_journeys", "two_servers_repeated_job", "dst_fall_back", "dst_spring_forward"] if tier == "quick" else list(T)
+    tnames = ["single", "two_independent_chains", "server_shared_by_two_journeys", "two_servers_repeated_job", "dst_fall_back", "dst_spring_forward",
+              "disjoint_periods_fixed_offset_zones", "dst_starts_at_repeated_hour"] if tier == "quick" else list(T)
     items = []
     for tname in tnames:
         spec = T[tname]
         for cname in change_lists(None, spec):
-            dnames = ("first", "interior", "last-common", "before", "after", "naive", "before-1h", "after-1h", "before-5h", "after-5h", "first@kathmandu", "interior@paris")
+            dnames = ("first", "interior", "last-common", "first-of-last-pattern", "before", "after", "naive", "before-1h", "after-1h", "before-5h", "after-5h", "first@kathmandu", "interior@paris")
             if tier == "thorough": dnames += ("before-2h", "after-2h", "before-7h", "after-7h", "first@paris", "first@losangeles", "interior@kathmandu", "interior@losangeles")
             if tname.startswith("dst_"): dnames += tuple(f"hour{k}" for k in range(1, 9))
             for dname in dnames:
